@@ -2,7 +2,8 @@
    In the model each loop carries a fuel equal to the number of bytes left in the stream plus one and answers EOutOfFuel
    when it is used up.  [fueled r] says r is not that answer: the loop ended on its own within (bytes left + 1) passes,
    whatever line numbers, counts or names the text contains.  Statements only; proofs in Proofs_Fuel.v. *)
-From PatchV Require Import Base Lines Hunk Options LineParser Parser World Driver Proofs_Fuel Proofs_Progress.
+From PatchV Require Import Base Lines Hunk Locator Options Applier LineParser Parser World Driver Proofs_Fuel Proofs_Progress
+     Cost_Locate Cost_Matches.
 
 (* reading a line consumes at least one byte *)
 Theorem sget_line_some : forall s x s', sget_line s = (Some x, s') -> length (rest s') < length (rest s).
@@ -81,3 +82,281 @@ Example huge_numbers_nonvacuous :
   | Throw _ => False
   end.
 Proof. vm_compute. reflexivity. Qed.
+
+(* ---------------------------------------------------------------------------------------------------------------
+C08, the cost of the hunk locator (proofs in Cost_Locate.v, Cost_Matches.v).
+
+   [locate_hunk_cost], [apply_patch_cost] (Cost_Locate.v) are copies of [Locator.locate_hunk] and of the loop of
+   [Applier.apply_patch] over the hunks that also return the number of line comparisons made: one tick per call of
+   [Locator.matches] on a (file line, hunk line) pair.  The first component is the model's own result (theorems
+   [.._same]), the second is bounded by a polynomial in the number of lines of the file and of the hunk(s):
+   no stated line number, no accumulated offset, no cursor occurs in any bound, and -F only through
+   [fuzz_levels h F <= min(F, context lines of h) + 1].
+
+   Vocabulary:
+     ctx_lines h        = max (leading context lines of h) (trailing context lines of h)
+     fuzz_levels h F    = Z.to_nat (Z.min F (ctx_lines h) + 1)     the passes of the fuzz loop locate_hunk allows
+     old_side (body h)  = the context and '-' lines of h
+     total_lines hs     = sum of the numbers of lines of the hunks hs;  first_lines hs = lines of the first hunk
+     hunk_weight F h    = min (F+1) (lines of h + 1) * (lines of h)
+
+   Section (4) refines the unit: [matches_cost] is a copy of [Locator.matches] that counts character steps (1 for the
+   terminators, 1 per pair of characters compared, and under -l 1 per pass of the loop of matches_ignoring_whitespace
+   and 1 per character its whitespace skipping looks at); [locate_hunk_chars], [apply_patch_chars] charge each line
+   comparison that many steps.
+     maxlen ls          = length of the longest line of ls;  maxlen_body, maxlen_hunks: the same over hunk lines
+     char_bound A B     = 2 * (A + B) + 2                          what comparing a line of A with one of B characters costs *)
+
+(* ---------------------------------------------------------------------------------------------------------------- *)
+(* (1) the instrumented functions compute what the model computes                                                    *)
+(* ---------------------------------------------------------------------------------------------------------------- *)
+Theorem locate_hunk_cost_same : forall lines h ws offset max_fuzz min_line,
+  fst (locate_hunk_cost lines h ws offset max_fuzz min_line) = locate_hunk lines h ws offset max_fuzz min_line.
+Proof. exact Cost_Locate.locate_hunk_cost_fst. Qed.
+Print Assumptions locate_hunk_cost_same.
+
+Theorem apply_patch_cost_same : forall o lines p,
+  fst (apply_patch_cost o lines p) = apply_patch o lines p.
+Proof. exact Cost_Locate.apply_patch_cost_fst. Qed.
+Print Assumptions apply_patch_cost_same.
+
+(* ---------------------------------------------------------------------------------------------------------------- *)
+(* (2) one hunk.  All inputs: any Z for the stated line (inside h), the offset and max_fuzz.                         *)
+(* ---------------------------------------------------------------------------------------------------------------- *)
+
+(* the number of passes of the fuzz loop *)
+Theorem fuzz_levels_bound : forall h max_fuzz,
+  fuzz_levels h max_fuzz <= Nat.min (Z.to_nat max_fuzz) (ctx_lines h) + 1 /\
+  ctx_lines h <= length (body h) /\
+  ((max_fuzz < 0)%Z -> fuzz_levels h max_fuzz = 0).
+Proof.
+  intros h F. split; [apply fuzz_levels_le|]. split; [apply ctx_lines_le|apply fuzz_levels_neg].
+Qed.
+Print Assumptions fuzz_levels_bound.
+
+(* the bound in the form of the task *)
+Theorem locate_hunk_cost_bound : forall lines h ws offset max_fuzz min_line,
+  snd (locate_hunk_cost lines h ws offset max_fuzz min_line)
+  <= fuzz_levels h max_fuzz * (2 * length lines + 2) * length (body h).
+Proof. exact Cost_Locate.locate_hunk_cost_le. Qed.
+Print Assumptions locate_hunk_cost_bound.
+
+(* what the model's scans really give: at one level the forward range [max(guess,min_line) capped at the size, size)
+   and the backward range [min_line, min(guess,size)) are disjoint, so every position from min_line on is tested
+   at most once per level; '+' lines are not compared *)
+Theorem locate_hunk_cost_bound_sharp : forall lines h ws offset max_fuzz min_line,
+  snd (locate_hunk_cost lines h ws offset max_fuzz min_line)
+  <= fuzz_levels h max_fuzz * ((length lines - min_line) * length (old_side (body h))).
+Proof. exact Cost_Locate.locate_hunk_cost_le_sharp. Qed.
+Print Assumptions locate_hunk_cost_bound_sharp.
+
+(* in terms of the option value: (F+1) * |file| * |hunk| *)
+Theorem locate_hunk_cost_bound_F : forall lines h ws offset max_fuzz min_line,
+  snd (locate_hunk_cost lines h ws offset max_fuzz min_line)
+  <= Z.to_nat (max_fuzz + 1)%Z * (length lines * length (body h)).
+Proof. exact Cost_Locate.locate_hunk_cost_le_F. Qed.
+Print Assumptions locate_hunk_cost_bound_F.
+
+(* whatever -F says *)
+Theorem locate_hunk_cost_bound_anyF : forall lines h ws offset max_fuzz min_line,
+  snd (locate_hunk_cost lines h ws offset max_fuzz min_line)
+  <= (length (body h) + 1) * (length lines * length (body h)).
+Proof. exact Cost_Locate.locate_hunk_cost_le_anyF. Qed.
+Print Assumptions locate_hunk_cost_bound_anyF.
+
+(* a hunk with an empty old range is placed by arithmetic alone *)
+Theorem locate_hunk_cost_insertion : forall lines h ws offset max_fuzz min_line,
+  rcount (oldr h) = 0%Z -> snd (locate_hunk_cost lines h ws offset max_fuzz min_line) = 0.
+Proof. exact Cost_Locate.locate_hunk_cost_insertion. Qed.
+Print Assumptions locate_hunk_cost_insertion.
+
+(* one test of a position: never more ticks than old-side lines compared, nor than file lines left *)
+Theorem position_test_cost : forall ws content h pf sf pos,
+  snd (hunk_matches_at_cost ws content h pf sf pos) <= length (body h) - pf - sf /\
+  snd (hunk_matches_at_cost ws content h pf sf pos) <= length content - (pos + pf).
+Proof.
+  intros ws content h pf sf pos. split; [apply hunk_matches_at_cost_le_trim|apply hunk_matches_at_cost_le_content].
+Qed.
+Print Assumptions position_test_cost.
+
+(* ---------------------------------------------------------------------------------------------------------------- *)
+(* (3) all the hunks of a patch, as apply_patch locates them (the first one possibly twice: as written and reversed) *)
+(* ---------------------------------------------------------------------------------------------------------------- *)
+Theorem apply_patch_cost_bound : forall o lines p,
+  snd (apply_patch_cost o lines p)
+  <= Z.to_nat (max_fuzz o + 1)%Z * (2 * length lines + 2) * total_lines (hunks p).
+Proof. exact Cost_Locate.apply_patch_cost_le. Qed.
+Print Assumptions apply_patch_cost_bound.
+
+Theorem apply_patch_cost_bound_sharp : forall o lines p,
+  snd (apply_patch_cost o lines p)
+  <= Z.to_nat (max_fuzz o + 1)%Z * length lines * (first_lines (hunks p) + total_lines (hunks p)).
+Proof. exact Cost_Locate.apply_patch_cost_le_sharp. Qed.
+Print Assumptions apply_patch_cost_bound_sharp.
+
+Theorem apply_patch_cost_bound_weight : forall o lines p,
+  snd (apply_patch_cost o lines p)
+  <= length lines * (first_weight (max_fuzz o) (hunks p) + total_weight (max_fuzz o) (hunks p)).
+Proof. exact Cost_Locate.apply_patch_cost_le_weight. Qed.
+Print Assumptions apply_patch_cost_bound_weight.
+
+(* (number of hunks) * (F+1) * (2*|file|+2) * (longest hunk) *)
+Theorem apply_patch_cost_bound_max : forall o lines p m,
+  (forall h, In h (hunks p) -> length (body h) <= m) ->
+  snd (apply_patch_cost o lines p)
+  <= length (hunks p) * Z.to_nat (max_fuzz o + 1)%Z * (2 * length lines + 2) * m.
+Proof. exact Cost_Locate.apply_patch_cost_le_max. Qed.
+Print Assumptions apply_patch_cost_bound_max.
+
+(* whatever -F says *)
+Theorem apply_patch_cost_bound_anyF : forall o lines p,
+  snd (apply_patch_cost o lines p)
+  <= length lines * (2 * ((total_lines (hunks p) + 1) * total_lines (hunks p))).
+Proof. exact Cost_Locate.apply_patch_cost_le_anyF. Qed.
+Print Assumptions apply_patch_cost_bound_anyF.
+
+(* ---------------------------------------------------------------------------------------------------------------- *)
+(* (4) in character steps                                                                                            *)
+(* ---------------------------------------------------------------------------------------------------------------- *)
+Theorem matches_cost_same : forall c p ws, fst (matches_cost c p ws) = matches c p ws.
+Proof. exact Cost_Matches.matches_cost_fst. Qed.
+Print Assumptions matches_cost_same.
+
+Theorem matches_cost_bound : forall c p ws,
+  snd (matches_cost c p ws) <= 2 * (length (txt c) + length (txt p)) + 2.
+Proof. exact Cost_Matches.matches_cost_le. Qed.
+Print Assumptions matches_cost_bound.
+
+Theorem locate_hunk_chars_same : forall lines h ws offset max_fuzz min_line,
+  fst (locate_hunk_chars lines h ws offset max_fuzz min_line) = locate_hunk lines h ws offset max_fuzz min_line.
+Proof. exact Cost_Matches.locate_hunk_chars_fst. Qed.
+Print Assumptions locate_hunk_chars_same.
+
+Theorem locate_hunk_chars_bound : forall lines h ws offset max_fuzz min_line,
+  snd (locate_hunk_chars lines h ws offset max_fuzz min_line)
+  <= fuzz_levels h max_fuzz *
+     ((length lines - min_line) * (length (old_side (body h)) * char_bound (maxlen lines) (maxlen_body (body h)))).
+Proof. exact Cost_Matches.locate_hunk_chars_le. Qed.
+Print Assumptions locate_hunk_chars_bound.
+
+Theorem locate_hunk_chars_bound_anyF : forall lines h ws offset max_fuzz min_line,
+  snd (locate_hunk_chars lines h ws offset max_fuzz min_line)
+  <= char_bound (maxlen lines) (maxlen_body (body h)) * (length lines * ((length (body h) + 1) * length (body h))).
+Proof. exact Cost_Matches.locate_hunk_chars_le_anyF. Qed.
+Print Assumptions locate_hunk_chars_bound_anyF.
+
+Theorem apply_patch_chars_same : forall o lines p, fst (apply_patch_chars o lines p) = apply_patch o lines p.
+Proof. exact Cost_Matches.apply_patch_chars_fst. Qed.
+Print Assumptions apply_patch_chars_same.
+
+Theorem apply_patch_chars_bound : forall o lines p,
+  snd (apply_patch_chars o lines p)
+  <= char_bound (maxlen lines) (maxlen_hunks (hunks p))
+     * (Z.to_nat (max_fuzz o + 1)%Z * (2 * length lines + 2) * total_lines (hunks p)).
+Proof. exact Cost_Matches.apply_patch_chars_le. Qed.
+Print Assumptions apply_patch_chars_bound.
+
+Theorem apply_patch_chars_bound_anyF : forall o lines p,
+  snd (apply_patch_chars o lines p)
+  <= char_bound (maxlen lines) (maxlen_hunks (hunks p))
+     * (length lines * (2 * ((total_lines (hunks p) + 1) * total_lines (hunks p)))).
+Proof. exact Cost_Matches.apply_patch_chars_le_anyF. Qed.
+Print Assumptions apply_patch_chars_bound_anyF.
+
+(* a file read from n bytes has at most n lines, none longer than n *)
+Theorem split_lines_sizes : forall bytes,
+  length (split_lines bytes) <= length bytes /\ maxlen (split_lines bytes) <= length bytes.
+Proof. exact Cost_Matches.split_lines_sizes. Qed.
+Print Assumptions split_lines_sizes.
+
+(* so, against the bytes of the file and the lines of the patch *)
+Theorem locate_hunk_chars_bound_bytes : forall bytes h ws offset max_fuzz min_line,
+  snd (locate_hunk_chars (split_lines bytes) h ws offset max_fuzz min_line)
+  <= fuzz_levels h max_fuzz *
+     (length bytes * (length (body h) * char_bound (length bytes) (maxlen_body (body h)))).
+Proof. exact Cost_Matches.locate_hunk_chars_bytes. Qed.
+Print Assumptions locate_hunk_chars_bound_bytes.
+
+Theorem apply_patch_chars_bound_bytes : forall o bytes p,
+  snd (apply_patch_chars o (split_lines bytes) p)
+  <= char_bound (length bytes) (maxlen_hunks (hunks p))
+     * (Z.to_nat (max_fuzz o + 1)%Z * (2 * length bytes + 2) * total_lines (hunks p)).
+Proof. exact Cost_Matches.apply_patch_chars_bytes. Qed.
+Print Assumptions apply_patch_chars_bound_bytes.
+
+(* ---------------------------------------------------------------------------------------------------------------- *)
+(* Examples                                                                                                          *)
+(* ---------------------------------------------------------------------------------------------------------------- *)
+Local Open Scope string_scope.
+Definition L (s : String.string) : line := mkLine (bs s) LF.
+Definition file5 : list line := [L "a"; L "b"; L "c"; L "d"; L "e"].
+Definition two62 : Z := 4611686018427387904%Z.   (* 2^62 *)
+
+(* " b", "-c", "+X", " d" stated at line 2^62 *)
+Definition hunk_far : hunk :=
+  mkHunk (mkRange two62 3) (mkRange two62 3)
+         [mkPL Ctx (L "b"); mkPL Del (L "c"); mkPL Add (L "X"); mkPL Ctx (L "d")].
+
+(* stated line 2^62, 5-line file: found at line 2 (0-based 1), six comparisons: the forward scan is empty, the backward
+   scan tests positions 4, 3, 2 (one comparison each) and 1 (three) *)
+Example far_hunk_is_cheap :
+  locate_hunk_cost file5 hunk_far false 0 2 0 = (Some (mkLoc 1 0 (ssub 1 (two62 - 1))), 6).
+Proof. vm_compute. reflexivity. Qed.
+
+(* the same with a huge negative offset and a huge -F: the guess is below the file, the forward scan finds it at once *)
+Example far_hunk_is_cheap_2 :
+  snd (locate_hunk_cost file5 hunk_far false (- two62 - two62) (two62 * 2) 0) = 4.
+Proof. vm_compute. reflexivity. Qed.
+
+(* a hunk that fits nowhere, -F 2^63, stated line 2^62: one context line on each side, so two passes;
+   the bound of the theorem for this instance is 2 * (2*5+2) * 4 = 96, the sharp one 2 * (5 * 3) = 30 *)
+Definition hunk_nowhere : hunk :=
+  mkHunk (mkRange two62 3) (mkRange two62 3)
+         [mkPL Ctx (L "b"); mkPL Del (L "zz"); mkPL Add (L "X"); mkPL Ctx (L "d")].
+Example nowhere_hunk_is_cheap :
+  locate_hunk_cost file5 hunk_nowhere false 0 (two62 * 2) 0 = (None, 10) /\
+  fuzz_levels hunk_nowhere (two62 * 2) = 2 /\
+  fuzz_levels hunk_nowhere (two62 * 2) * (2 * length file5 + 2) * length (body hunk_nowhere) = 96 /\
+  fuzz_levels hunk_nowhere (two62 * 2) * ((length file5 - 0) * length (old_side (body hunk_nowhere))) = 30.
+Proof. vm_compute. repeat split; reflexivity. Qed.
+
+(* the sharp bound is met: a file of five equal lines, a hunk of two such lines and a third that differs, no context,
+   stated in the middle: every one of the five positions is tested once; 2+2+2+2+1 comparisons (the last position has
+   only one file line under it), against 1 * (5 * 3) = 15 *)
+Definition file_same : list line := [L "a"; L "a"; L "a"; L "a"; L "a"].
+Definition hunk_same : hunk :=
+  mkHunk (mkRange 3 3) (mkRange 3 0) [mkPL Del (L "a"); mkPL Del (L "a"); mkPL Del (L "q")].
+Example same_lines_cost :
+  locate_hunk_cost file_same hunk_same false 0 2 0 = (None, 12).
+Proof. vm_compute. reflexivity. Qed.
+
+(* apply_patch over two hunks with stated lines 2^62 and -F 2^62.  Without -f the first hunk, not found where it says,
+   is also looked for reversed (10 more comparisons); the second hunk has one position left to try *)
+Definition opts_bigF (force : bool) : options :=
+  mkOptions false false [] [] false [] false false false [] (-1)%Z two62 false [] []
+            force true false false false false false false OBUnset OBUnset MNative RFDefault ROWarn QSUnset [] [].
+Definition patch_far : patch :=
+  mkPatch FUnified OpChange [] [] (bs "f") (bs "f") [] [] 0 0 [hunk_far; hunk_nowhere].
+Example apply_patch_far_is_cheap :
+  snd (apply_patch_cost (opts_bigF true) file5 patch_far) = 7 /\
+  snd (apply_patch_cost (opts_bigF false) file5 patch_far) = 17 /\
+  match fst (apply_patch_cost (opts_bigF false) file5 patch_far) with
+  | Ok r => r_out r = [L "a"; L "b"; L "X"; L "d"; L "e"] /\ r_failed r = 1
+  | Throw _ => False
+  end.
+Proof. vm_compute. repeat split; reflexivity. Qed.
+
+(* in character steps: the far hunk again (without and with -l), and a comparison that needs -l *)
+Example far_hunk_is_cheap_chars :
+  snd (locate_hunk_chars file5 hunk_far false 0 2 0) = 12 /\
+  snd (locate_hunk_chars file5 hunk_far true 0 2 0) = 15.
+Proof. vm_compute. split; reflexivity. Qed.
+
+Definition file_ws : list line := [L "a"; L "x   y  z"; L "c"].
+Definition hunk_ws : hunk := mkHunk (mkRange two62 1) (mkRange two62 0) [mkPL Del (L "x y z  ")].
+Example whitespace_chars :
+  matches_cost (L "x   y  z") (L "x y z  ") true = (true, 18) /\
+  2 * (length (txt (L "x   y  z")) + length (txt (L "x y z  "))) + 2 = 32 /\
+  locate_hunk_chars file_ws hunk_ws true 0 2 0 = (Some (mkLoc 1 0 (ssub 1 (two62 - 1))), 21) /\
+  locate_hunk_chars file_ws hunk_ws false 0 2 0 = (None, 8).
+Proof. vm_compute. repeat split; reflexivity. Qed.
